@@ -369,7 +369,16 @@ pub fn run(cx: &mut Ctx) {
             if many {
                 c.sit("more_than_64_keys");
             }
-            let keys: Vec<String> = (0..nk).map(|i| format!("key{}", i)).collect();
+            let mut keys: Vec<String> = (0..nk).map(|i| format!("key{}", i)).collect();
+            if !many && rng.chance(1, 4) {
+                // keys that collide once trimmed / case-folded (they are distinct keys)
+                for k in ["key0 ", " key0", "KEY0", "key0\t"] {
+                    if rng.bool() {
+                        keys.push(k.to_string());
+                    }
+                }
+            }
+            let nk = keys.len();
             let alphabet = ['\\', 'n', '\n', '\r', 'a', 'あ', '\u{a5}', 'ｱ'];
             let len = if cfg!(miri) { rng.range(5, 20) } else if many { rng.range(300, 700) } else { rng.range(20, 300) };
             let unicode = cfg!(miri) || rng.chance(2, 3);
